@@ -1533,61 +1533,16 @@ obligations even when no sampled input or schedule shows a difference; the check
 a failing input. -/
 theorem c06_shape_Tree_MakeTreeMarshal :
     Shapes.tree_Tree_MakeTreeMarshal =
-   ["TreeMarshalCopyTree"] := rfl
+   ["if:(t.Roster==nil)", "return:&TreeMarshal{}",
+     "assign:treeM:=&TreeMarshal{TreeID:t.ID,RosterID:t.Roster.ID}", "TreeMarshalCopyTree",
+     "assign:treeM.Children=append(treeM.Children,TreeMarshalCopyTree(t.Root))", "return:treeM"] := rfl
 
 theorem c06_shape_TreeMarshalCopyTree :
     Shapes.tree_TreeMarshalCopyTree =
-   ["TreeMarshalCopyTree"] := rfl
-
-theorem c06_shape_TreeMarshal_MakeTree :
-    Shapes.tree_TreeMarshal_MakeTree =
-   ["if:(ro==nil)", "return:nil,xerrors.New(\"\")", "if:!ro.ID.Equal(tm.RosterID)",
-     "return:nil,xerrors.New(\"\")", "if:((len(tm.Children)!=1)||(tm.Children[]==nil))",
-     "return:nil,xerrors.New(\"\")", "Children[].MakeTreeFromList", "if:(err!=nil)",
-     "return:nil,xerrors.Errorf(\"\",err)", "tree.computeSubtreeAggregate", "return:tree,nil"] := rfl
-
-theorem c06_shape_TreeMarshal_MakeTreeFromList :
-    Shapes.tree_TreeMarshal_MakeTreeFromList =
-   ["ro.Search", "if:(idx<0)", "return:nil,xerrors.New(\"\")", "if:(ent.Public==nil)",
-     "return:nil,xerrors.New(\"\")", "c.MakeTreeFromList", "if:(err!=nil)",
-     "return:nil,xerrors.Errorf(\"\",err)", "return:tn,nil"] := rfl
-
-theorem c06_shape_Overlay_handleSendTree :
-    Shapes.overlay_Overlay_handleSendTree =
-   ["if:((rt.TreeMarshal==nil)||rt.TreeMarshal.TreeID.IsNil())", "return:",
-     "if:(rt.Roster==nil)", "return:", "if:!o.treeStorage.IsRequested(rt.TreeMarshal.TreeID)",
-     "return:", "TreeMarshal.MakeTree", "if:(err!=nil)", "return:", "o.RegisterTree"] := rfl
-
-theorem c06_shape_Overlay_handleSendTreeMarshal :
-    Shapes.overlay_Overlay_handleSendTreeMarshal =
-   ["if:tm.TreeID.IsNil()", "return:", "if:!o.treeStorage.IsRequested(tm.TreeID)", "return:",
-     "instancesLock.Lock", "treeStorage.Get",
-     "if:(((tree!=nil)&&(tree.Roster!=nil))&&tree.Roster.ID.Equal(tm.RosterID))",
-     "instancesLock.Unlock", "if:(ro==nil)", "io.Wrap", "if:(err!=nil)", "server.Send",
-     "if:(err!=nil)", "o.addPendingTreeMarshal", "return:", "o.handleSendTree"] := rfl
-
-theorem c06_shape_Overlay_checkPendingTreeMarshal :
-    Shapes.overlay_Overlay_checkPendingTreeMarshal =
-   ["pendingTreeLock.Lock", "if:!ok", "pendingTreeLock.Unlock", "return:",
-     "if:(o.treeStorage.Get(tm.TreeID)!=nil)", "tm.MakeTree", "if:(err!=nil)", "o.RegisterTree",
-     "pendingTreeLock.Unlock"] := rfl
-
-theorem c06_shape_Overlay_handleRequestTree :
-    Shapes.overlay_Overlay_handleRequestTree =
-   ["treeStorage.Get", "tree.MakeTreeMarshal", "o.handleRequestTreeDeprecated", "io.Wrap",
-     "server.Send"] := rfl
-
-theorem c06_shape_Overlay_handleSendRoster :
-    Shapes.overlay_Overlay_handleSendRoster =
-   ["ID.IsNil", "o.checkPendingTreeMarshal"] := rfl
-
-theorem c06_shape_treeStorage_IsRequested :
-    Shapes.treestorage_treeStorage_IsRequested =
-   ["ts.Lock", "defer:ts.Unlock", "return:(ok&&(tree==nil))"] := rfl
-
-theorem c06_shape_treeStorage_Set :
-    Shapes.treestorage_treeStorage_Set =
-   ["ts.Lock", "defer:ts.Unlock", "ts.cancelDeletion"] := rfl
+   ["assign:tm:=&TreeMarshal{TreeNodeID:tr.ID,ServerIdentityID:tr.ServerIdentity.ID}",
+     "range:i,:=tr.Children{", "TreeMarshalCopyTree",
+     "assign:tm.Children=append(tm.Children,TreeMarshalCopyTree(tr.Children[i]))", "}",
+     "return:tm"] := rfl
 
 theorem c06_shape_Overlay_requestTree :
     Shapes.overlay_Overlay_requestTree =
@@ -1599,29 +1554,27 @@ theorem c06_shape_Overlay_requestTree :
      "server.Send", "if:(err!=nil)", "treeStorage.Unregister", "return:xerrors.Errorf(\"\",err)",
      "return:nil"] := rfl
 
-theorem c06_shape_treeStorage_Register :
-    Shapes.treestorage_treeStorage_Register =
-   ["ts.Lock", "if:!ok", "ts.Unlock"] := rfl
-
-theorem c06_shape_treeStorage_Unregister :
-    Shapes.treestorage_treeStorage_Unregister =
-   ["ts.Lock", "defer:ts.Unlock", "if:(tree==nil)"] := rfl
-
 theorem c06_shape_Tree_computeSubtreeAggregate :
     Shapes.tree_Tree_computeSubtreeAggregate =
-   ["Public.Clone", "t.computeSubtreeAggregate", "agg.Add", "return:agg"] := rfl
+   ["Public.Clone", "assign:agg:=root.ServerIdentity.Public.Clone()",
+     "range:_,ch:=root.Children{", "t.computeSubtreeAggregate", "agg.Add",
+     "assign:agg=agg.Add(agg,t.computeSubtreeAggregate(ch))", "}",
+     "assign:root.PublicAggregateSubTree=agg", "return:agg"] := rfl
 
 theorem c06_shape_NewTreeFromMarshal :
     Shapes.tree_NewTreeFromMarshal =
-   ["network.Unmarshal", "if:(err!=nil)", "return:nil,err", "if:!tp.Equal(TreeMarshalTypeID)",
-     "return:nil,xerrors.New(\"\")", "?.MakeTree", "if:(err!=nil)",
+   ["network.Unmarshal", "assign:tp,pm,err:=network.Unmarshal(buf,s)", "if:(err!=nil)",
+     "return:nil,err", "if:!tp.Equal(TreeMarshalTypeID)", "return:nil,xerrors.New(\"\")",
+     "?.MakeTree", "assign:t,err:=?.MakeTree(el)", "if:(err!=nil)",
      "return:nil,xerrors.Errorf(\"\",err)", "t.computeSubtreeAggregate", "return:t,nil"] := rfl
 
 theorem c06_shape_Tree_BinaryUnmarshaler :
     Shapes.tree_Tree_BinaryUnmarshaler =
-   ["network.Unmarshal", "if:!ok", "return:xerrors.New(\"\")", "NewTreeFromMarshal",
-     "if:(err!=nil)", "return:xerrors.Errorf(\"\",err)", "return:nil"] := rfl
-
+   ["network.Unmarshal", "assign:_,m,err:=network.Unmarshal(b,s)",
+     "assign:tbm,ok:=m.(tbmStruct)", "if:!ok", "return:xerrors.New(\"\")", "NewTreeFromMarshal",
+     "assign:tree,err:=NewTreeFromMarshal(s,tbm.T,tbm.Ro)", "if:(err!=nil)",
+     "return:xerrors.Errorf(\"\",err)", "assign:t.Roster=tbm.Ro", "assign:t.ID=tree.ID",
+     "assign:t.Root=tree.Root", "return:nil"] := rfl
 
 theorem c06_shape_Tree_Equal :
     Shapes.tree_Tree_Equal =
@@ -1631,26 +1584,123 @@ theorem c06_shape_Tree_Equal :
 theorem c06_shape_TreeNode_Equal :
     Shapes.tree_TreeNode_Equal =
    ["if:(!t.ID.Equal(t2.ID)||!t.ServerIdentity.ID.Equal(t2.ServerIdentity.ID))", "return:false",
-     "if:(len(t.Children)!=len(t2.Children))", "return:false", "if:!c.Equal(t2.Children[])",
-     "return:false", "return:true"] := rfl
+     "if:(len(t.Children)!=len(t2.Children))", "return:false", "range:i,c:=t.Children{",
+     "if:!c.Equal(t2.Children[i])", "return:false", "}", "return:true"] := rfl
 
 theorem c06_shape_Roster_Search :
     Shapes.tree_Roster_Search =
-   ["if:e.ID.Equal(eID)", "return:i,e", "return:-1,nil"] := rfl
-
-theorem c06_shape_Overlay_handleRequestRoster :
-    Shapes.overlay_Overlay_handleRequestRoster =
-   ["treeStorage.GetRoster", "io.Wrap", "server.Send"] := rfl
+   ["range:i,e:=ro.List{", "if:e.ID.Equal(eID)", "return:i,e", "}", "return:-1,nil"] := rfl
 
 theorem c06_shape_Overlay_handleRequestTreeDeprecated :
     Shapes.overlay_Overlay_handleRequestTreeDeprecated =
    ["io.Wrap", "server.Send"] := rfl
 
-theorem c06_shape_treeStorage_GetRoster :
-    Shapes.treestorage_treeStorage_GetRoster =
-   ["ts.Lock", "defer:ts.Unlock",
+theorem c06_shape_TreeMarshal_MakeTree_full :
+    Shapes.tree_TreeMarshal_MakeTree_full =
+   ["if:(ro==nil)", "return:nil,xerrors.New(\"\")", "if:!ro.ID.Equal(tm.RosterID)",
+     "return:nil,xerrors.New(\"\")", "if:((len(tm.Children)!=1)||(tm.Children[0]==nil))",
+     "return:nil,xerrors.New(\"\")", "assign:tree:=&Tree{ID:tm.TreeID,Roster:ro}",
+     "Children[].MakeTreeFromList",
+     "assign:tree.Root,err=tm.Children[].MakeTreeFromList(nil,ro)", "if:(err!=nil)",
+     "return:nil,xerrors.Errorf(\"\",err)", "tree.computeSubtreeAggregate", "return:tree,nil"] := rfl
+
+theorem c06_shape_TreeMarshal_MakeTreeFromList_full :
+    Shapes.tree_TreeMarshal_MakeTreeFromList_full =
+   ["ro.Search", "assign:idx,ent:=ro.Search(tm.ServerIdentityID)", "if:(idx<0)",
+     "return:nil,xerrors.New(\"\")", "if:(ent.Public==nil)", "return:nil,xerrors.New(\"\")",
+     "assign:tn:=&TreeNode{Parent:parent,ID:tm.TreeNodeID,ServerIdentity:ent,RosterIndex:idx}",
+     "range:_,c:=tm.Children{", "c.MakeTreeFromList",
+     "assign:ntn,err:=c.MakeTreeFromList(tn,ro)", "if:(err!=nil)",
+     "return:nil,xerrors.Errorf(\"\",err)", "assign:tn.Children=append(tn.Children,ntn)", "}",
+     "return:tn,nil"] := rfl
+
+theorem c06_shape_Overlay_checkPendingTreeMarshal_full :
+    Shapes.overlay_Overlay_checkPendingTreeMarshal_full =
+   ["pendingTreeLock.Lock", "assign:sl,ok:=o.pendingTreeMarshal[el.ID]", "if:!ok",
+     "pendingTreeLock.Unlock", "return:", "range:_,tm:=sl{",
+     "if:(o.treeStorage.Get(tm.TreeID)!=nil)", "continue", "tm.MakeTree",
+     "assign:tree,err:=tm.MakeTree(el)", "if:(err!=nil)", "continue", "o.RegisterTree", "}",
+     "pendingTreeLock.Unlock"] := rfl
+
+theorem c06_shape_Overlay_handleSendTree_full :
+    Shapes.overlay_Overlay_handleSendTree_full =
+   ["if:((rt.TreeMarshal==nil)||rt.TreeMarshal.TreeID.IsNil())", "return:",
+     "if:(rt.Roster==nil)", "return:", "if:!o.treeStorage.IsRequested(rt.TreeMarshal.TreeID)",
+     "return:", "TreeMarshal.MakeTree", "assign:tree,err:=rt.TreeMarshal.MakeTree(rt.Roster)",
+     "if:(err!=nil)", "return:", "o.RegisterTree"] := rfl
+
+theorem c06_shape_Overlay_handleSendTreeMarshal_full :
+    Shapes.overlay_Overlay_handleSendTreeMarshal_full =
+   ["if:tm.TreeID.IsNil()", "return:", "if:!o.treeStorage.IsRequested(tm.TreeID)", "return:",
+     "instancesLock.Lock", "range:_,inst:=o.instances{", "treeStorage.Get",
+     "assign:tree:=o.treeStorage.Get(inst.token.TreeID)",
+     "if:(((tree!=nil)&&(tree.Roster!=nil))&&tree.Roster.ID.Equal(tm.RosterID))",
+     "assign:ro=tree.Roster", "}", "instancesLock.Unlock", "if:(ro==nil)", "io.Wrap",
+     "assign:msg,err:=io.Wrap(nil,&OverlayMsg{RequestRoster:&RequestRoster{tm.RosterID}})",
+     "if:(err!=nil)", "server.Send", "assign:_,err:=o.server.Send(si,msg)", "if:(err!=nil)",
+     "o.addPendingTreeMarshal", "return:", "assign:rt:=&ResponseTree{TreeMarshal:tm,Roster:ro}",
+     "o.handleSendTree"] := rfl
+
+theorem c06_shape_Overlay_handleRequestTree_full :
+    Shapes.overlay_Overlay_handleRequestTree_full =
+   ["treeStorage.Get", "assign:tree:=o.treeStorage.Get(req.TreeID)", "if:(tree==nil)", "return:",
+     "tree.MakeTreeMarshal", "assign:treeM:=tree.MakeTreeMarshal()", "if:(req.Version==0)",
+     "o.handleRequestTreeDeprecated", "return:", "io.Wrap",
+     "assign:msg,err:=io.Wrap(nil,&OverlayMsg{ResponseTree:&ResponseTree{TreeMarshal:treeM,Roster:tree.Roster}})",
+     "if:(err!=nil)", "return:", "server.Send", "assign:_,err=o.server.Send(si,msg)",
+     "if:(err!=nil)"] := rfl
+
+theorem c06_shape_Overlay_handleRequestRoster_full :
+    Shapes.overlay_Overlay_handleRequestRoster_full =
+   ["treeStorage.GetRoster", "assign:ro:=o.treeStorage.GetRoster(req.RosterID)", "if:(ro==nil)",
+     "assign:ro=&Roster{}", "io.Wrap", "assign:msg,err:=io.Wrap(nil,&OverlayMsg{Roster:ro})",
+     "if:(err!=nil)", "return:", "server.Send", "assign:_,err=o.server.Send(si,msg)",
+     "if:(err!=nil)", "return:"] := rfl
+
+theorem c06_shape_Overlay_handleSendRoster_full :
+    Shapes.overlay_Overlay_handleSendRoster_full =
+   ["if:roster.ID.IsNil()", "return:", "o.checkPendingTreeMarshal"] := rfl
+
+theorem c06_shape_treeStorage_Register_full :
+    Shapes.treestorage_treeStorage_Register_full =
+   ["ts.Lock", "assign:_,ok:=ts.trees[id]", "if:!ok", "assign:ts.trees[id]=nil", "ts.Unlock"] := rfl
+
+theorem c06_shape_treeStorage_Unregister_full :
+    Shapes.treestorage_treeStorage_Unregister_full =
+   ["ts.Lock", "defer:ts.Unlock", "assign:tree:=ts.trees[id]", "if:(tree==nil)"] := rfl
+
+theorem c06_shape_treeStorage_Set_full :
+    Shapes.treestorage_treeStorage_Set_full =
+   ["ts.Lock", "defer:ts.Unlock", "ts.cancelDeletion", "assign:ts.trees[tree.ID]=tree"] := rfl
+
+theorem c06_shape_treeStorage_IsRequested_full :
+    Shapes.treestorage_treeStorage_IsRequested_full =
+   ["ts.Lock", "defer:ts.Unlock", "assign:tree,ok:=ts.trees[id]", "return:(ok&&(tree==nil))"] := rfl
+
+theorem c06_shape_treeStorage_GetRoster_full :
+    Shapes.treestorage_treeStorage_GetRoster_full =
+   ["ts.Lock", "defer:ts.Unlock", "range:_,tree:=ts.trees{",
      "if:(((tree!=nil)&&(tree.Roster!=nil))&&tree.Roster.ID.Equal(id))", "return:tree.Roster",
-     "return:nil"] := rfl
+     "}", "return:nil"] := rfl
+
+theorem c06_shape_Tree_BinaryMarshaler :
+    Shapes.tree_Tree_BinaryMarshaler =
+   ["t.Marshal", "assign:bt,err:=t.Marshal()", "if:(err!=nil)",
+     "return:nil,xerrors.Errorf(\"\",err)", "assign:tbm:=&tbmStruct{T:bt,Ro:t.Roster}",
+     "network.Marshal", "assign:b,err:=network.Marshal(tbm)", "if:(err!=nil)",
+     "return:nil,xerrors.Errorf(\"\",err)", "return:b,nil"] := rfl
+
+theorem c06_shape_Tree_Marshal :
+    Shapes.tree_Tree_Marshal =
+   ["t.MakeTreeMarshal", "network.Marshal",
+     "assign:buf,err:=network.Marshal(t.MakeTreeMarshal())", "if:(err!=nil)",
+     "return:nil,xerrors.Errorf(\"\",err)", "return:buf,nil"] := rfl
+
+theorem c06_shape_Overlay_addPendingTreeMarshal :
+    Shapes.overlay_Overlay_addPendingTreeMarshal =
+   ["pendingTreeLock.Lock", "assign:sl,ok=o.pendingTreeMarshal[tm.RosterID]", "if:!ok",
+     "assign:sl=make(conv,0)", "assign:sl=append(sl,tm)",
+     "assign:o.pendingTreeMarshal[tm.RosterID]=sl", "pendingTreeLock.Unlock"] := rfl
 
 
 end C06
